@@ -822,7 +822,9 @@ func relayTwo(c *child.Ctx, p *proxyProc, k proxyCase, cj []byte) {
 
 // htmlBait builds traffic that reads as HTML when dumped.
 func htmlBait(r *ref.SplitMix64) []byte {
-	texts := []string{"<script>alert(1)</script>", "</div><img src=x onerror=alert(1)>", "<b>bold</b>", "a<b>c", "<<<>>>"}
+	texts := []string{"<script>alert(1)</script>", "</div><img src=x onerror=alert(1)>", "<b>bold</b>", "a<b>c", "<<<>>>",
+		// text that already reads like escaped markup, next to markup that is not
+		"&lt;<script>alert(1)</script>", "&amp;<b>x</b>", "&gt;</div><img src=x>", "&lt;&gt;&amp;<i>i</i>", "&#60;<u>"}
 	t := []byte(texts[r.Intn(len(texts))])
 	switch r.Intn(4) {
 	case 3: // a complete NMEA 0183 sentence with a correct checksum carrying the text
@@ -1161,6 +1163,66 @@ func execC19Stall(c *child.Ctx, k proxyCase, cj []byte) {
 	}
 }
 
+// execC19HalfClose: the caster answers and then shuts down its sending side only (it
+// has nothing more to say) while it keeps reading; everything the client sends
+// afterwards must still reach it.
+func execC19HalfClose(c *child.Ctx, k proxyCase, cj []byte) {
+	p, err := startProxy(c, k.ID)
+	if err != nil {
+		if p != nil {
+			p.stop()
+		}
+		c.Inconclusive("proxy could not be started: " + err.Error())
+		return
+	}
+	defer p.stop()
+	r := ref.NewRand(k.Seed)
+	conn, err := net.DialTimeout("tcp", fmt.Sprintf("127.0.0.1:%d", p.proxyPort), 5*time.Second)
+	if err != nil {
+		c.Inconclusive("cannot connect to the proxy: " + err.Error())
+		return
+	}
+	defer conn.Close()
+	up, err := acceptWithin(p.upstream, 20*time.Second)
+	if err != nil {
+		c.Inconclusive("the proxy did not connect upstream: " + err.Error())
+		return
+	}
+	defer up.Close()
+	first := append(ntripRequest(r), proxyStream(r, r.Range(100, 2000))...)
+	answer := casterAnswer(r)
+	rest := proxyStream(r, r.Range(2000, 20000))
+	sent1 := make(chan struct{})
+	go func() { writeChunks(conn, first, k.Chunk, k.GapUs, ref.NewRand(k.Seed+1)); close(sent1) }()
+	got := readN(up, len(first), 20*time.Second, sent1)
+	up.Write(answer)
+	if tc, ok := up.(*net.TCPConn); ok {
+		tc.CloseWrite()
+	}
+	// the client sees the answer (and then the end of the server's side)
+	ansSent := make(chan struct{})
+	close(ansSent)
+	gotAns := readN(conn, len(answer), 20*time.Second, ansSent)
+	time.Sleep(time.Duration(r.Range(0, 50)) * time.Millisecond)
+	sent2 := make(chan struct{})
+	go func() { writeChunks(conn, rest, k.Chunk, k.GapUs, ref.NewRand(k.Seed+2)); close(sent2) }()
+	got = append(got, readN(up, len(rest), 20*time.Second, sent2)...)
+	if !p.alive() {
+		c.Violate("proxy-died", "the proxy process ended after the server shut down its sending side: "+p.stderrTail(), cj)
+		return
+	}
+	if !bytes.Equal(gotAns, answer) {
+		c.Violate("server-to-client-differs", fmt.Sprintf("the server's answer (%d bytes) reached the client as %d bytes: %s", len(answer), len(gotAns), firstDiff(gotAns, answer)), cj)
+		return
+	}
+	want := append(append([]byte(nil), first...), rest...)
+	if !bytes.Equal(got, want) {
+		c.Violate("client-to-server-differs", fmt.Sprintf("after the server had answered and shut down its sending side (it kept reading), it received %d of the %d bytes the client sent: %s", len(got), len(want), firstDiff(got, want)), cj)
+		return
+	}
+	c.Count("sessions_with_server_half_close", 1)
+}
+
 // execC19Bulk: a client uploads megabytes of small frames as fast as it can while the
 // status page is read again and again: the upstream gets every byte, and every
 // report lists a contiguous run of the messages that were relayed.
@@ -1312,6 +1374,8 @@ func monC19(c *child.Ctx, replay json.RawMessage) {
 			execC19Stall(c, k, replay)
 		} else if k.Kind == "bulk" {
 			execC19Bulk(c, k, replay)
+		} else if k.Kind == "halfclose" {
+			execC19HalfClose(c, k, replay)
 		} else if k.Kind == "status" {
 			execC19Status(c, k, replay)
 		} else if k.Kind == "concurrent" {
@@ -1362,6 +1426,12 @@ func monC19(c *child.Ctx, replay json.RawMessage) {
 		k := proxyCase{ID: c.Batch*10000 + 9600, Kind: "bulk", Seed: r.Uint64() >> 1, StallBytes: 2000000}
 		cj := c.BeginV(k)
 		execC19Bulk(c, k, cj)
+		c.Eval(ref.Hash64(cj), true)
+	}
+	for i := 0; i < c.Share(c.Pick(10, 400)) && c.NViolations() == 0; i++ {
+		k := proxyCase{ID: c.Batch*10000 + 9700 + i, Kind: "halfclose", Seed: r.Uint64() >> 1, Chunk: []int{0, 17, 512, 4096}[r.Intn(4)], GapUs: []int{0, 200}[r.Intn(2)]}
+		cj := c.BeginV(k)
+		execC19HalfClose(c, k, cj)
 		c.Eval(ref.Hash64(cj), true)
 	}
 	ns := c.Share(c.Pick(40, 1500))
